@@ -12,6 +12,7 @@ PROP = {
         "quick": [B("stable"), B("nightly", 0.25, False)],
         "thorough": [B("stable"), B("fma", 0.5), B("nightly", 0.5, False)],
     },
+    "volume": {"quick": 6},
     "technique": "property-based testing: proptest generators of entry bit patterns / integer / real operands against an array-of-bits model of column-major storage and an exact i128 / f64 / double-double "
                  "evaluation of the column-vector products, in the SSE2, scalar-math, nightly core-simd (and +fma) builds of the working tree",
     "level_text": "Generated-input search: for the seven matrix and four affine types every accessor path (arrays, 2-D arrays, slices, AsRef/AsMut, from_cols, axis fields, col, col_mut, row, from_diagonal, transpose, "
